@@ -2,6 +2,8 @@
 SPEC = {
     "bins": [
         {"name": "c17", "pkg": "./zz_verif/c17", "run": ".", "shards": {"quick": 1, "thorough": 16}},
+        # the concurrent sub-check once more under the race detector (results are compared in both builds)
+        {"name": "c17conc", "pkg": "./zz_verif/c17", "run": "^TestC17Concurrent$", "race": True, "shards": {"quick": 1, "thorough": 4}},
     ],
     "rule": "secret sharing: case = (group of P256/P384/P521/ristretto255, t, n with 0 <= t < n <= 8 (16 thorough), secret in {0,1,r-1,random}, "
             "identifiers 1..n via Share or distinct arbitrary non-zero scalars via ShareWithID, coefficient stream, dealer reusing one identifier scalar object in place or a fresh one per call, caller overwriting the scalars passed in and the returned share / commitment objects after the calls, up to 3 subsets S in drawn order, up to 3 altered shares) drawn by rapid. "
